@@ -9,7 +9,7 @@ from __future__ import annotations
 from typing import TYPE_CHECKING
 
 from xknx.dpt import DPTArray, DPTBinary
-from xknx.exceptions import CouldNotParseTelegram
+from xknx.exceptions import ConversionError, CouldNotParseTelegram
 
 from .remote_value import GroupAddressesType, RemoteValue, RVCallbackType
 
@@ -50,6 +50,15 @@ class RemoteValueScaling(RemoteValue[int]):
     def to_knx(self, value: float) -> DPTArray:
         """Convert value to payload."""
         knx_value = self._calc_to_knx(self.range_from, self.range_to, value)
+        if not 0 <= knx_value <= 255:
+            raise ConversionError(
+                "Value out of range",
+                value=value,
+                range_from=self.range_from,
+                range_to=self.range_to,
+                device_name=self.device_name,
+                feature_name=self.feature_name,
+            )
         return DPTArray(knx_value)
 
     def from_knx(self, payload: DPTArray | DPTBinary) -> int:
